@@ -90,7 +90,7 @@ pub fn run_check(ctx: &Ctx) -> Outcome {
             // ghost bound as configured, through every construction path
             check_2q_quota_grid_for(ctx, &mut out, "C01");
             check_conv(ctx, crate::conv::ConvProp::C01, &mut out, 2000, 40000);
-            check_big(ctx, crate::big::BigProp::C01, &[Kind::Lru, Kind::Seg, Kind::TwoQ, Kind::Arc, Kind::Wtl], &mut out, 4, 60);
+            check_big(ctx, crate::big::BigProp::C01, &[Kind::Lru, Kind::Lru, Kind::Seg, Kind::TwoQ, Kind::Arc, Kind::Wtl], &mut out, 8, 80);
         }
         "C02" => {
             check_e1(ctx, Prop::C02, &mut out, 10000, 200000);
